@@ -157,6 +157,8 @@ func errClass(err error) string {
 		return "BadArrayLen"
 	case redis.ErrBadArrayLenTooLong:
 		return "BadArrayLenTooLong"
+	case redis.ErrBadArrayDepth:
+		return "BadArrayDepth"
 	case redis.ErrBadBulkStringLen:
 		return "BadBulkLen"
 	case redis.ErrBadBulkStringLenTooLong:
